@@ -486,10 +486,22 @@ func errOrOK(err error) string {
 	return "rejected (" + err.Error() + ")"
 }
 
+func hashSeed(x uint64) uint64 {
+	x ^= x >> 33
+	x *= 0xFF51AFD7ED558CCD
+	x ^= x >> 33
+	x *= 0xC4CEB9FE1A85EC53
+	x ^= x >> 33
+	return x | 1<<40
+}
+
 // ---- main --------------------------------------------------------------------------------------
 
 func main() {
 	ctx := common.ParseFlags("C09")
+	// common.NewRand(seed) makes the stream of seed k a one-draw shift of the stream of seed 1
+	// (state = seed*γ + c, step γ): decorrelate the seeds by hashing first
+	ctx.R = common.NewRand(hashSeed(ctx.Seed))
 	r := ctx.R
 	c := &checker{ctx}
 	corpus, builtins := loadCorpus(ctx)
